@@ -765,10 +765,28 @@ impl Pool {
             (&self.sharding_key_regex, "sharding_key_regex"),
         ] {
             if let Some(regex) = option {
-                if let Err(parse_err) = Regex::new(regex.as_str()) {
-                    error!("{} is not a valid Regex: {}", name, parse_err);
-                    return Err(Error::BadConfig);
+                match Regex::new(regex.as_str()) {
+                    Ok(regex) => {
+                        // The router reads the shard or the key from the first capture group.
+                        if regex.captures_len() < 2 {
+                            error!("{} needs a capture group, e.g. `(\\d+)`", name);
+                            return Err(Error::BadConfig);
+                        }
+                    }
+                    Err(parse_err) => {
+                        error!("{} is not a valid Regex: {}", name, parse_err);
+                        return Err(Error::BadConfig);
+                    }
                 }
+            }
+        }
+
+        // Pools are identified by their name and the user's name.
+        let mut usernames = HashSet::new();
+        for user in self.users.values() {
+            if !usernames.insert(user.username.as_str()) {
+                error!("More than one user is named `{}`", user.username);
+                return Err(Error::BadConfig);
             }
         }
 
@@ -1501,6 +1519,11 @@ impl Config {
     }
 
     pub fn validate(&mut self) -> Result<(), Error> {
+        if self.general.worker_threads == 0 {
+            error!("worker_threads must be greater than 0");
+            return Err(Error::BadConfig);
+        }
+
         // Validation for auth_query feature
         if self.general.auth_query.is_some()
             && (self.general.auth_query_user.is_none()
